@@ -359,6 +359,18 @@ def check_C07(chk, tier, seed):
                 chunks = [data] if not chunked else random_chunking(r, data[:64]) + ([data[64:]] if len(data) > 64 else [])
                 cases.append(f"SD g 1 {rs(chunks)}")
                 meta.append((L, kind, len(cont)))
+    # announced lengths 0 ... 3 under every first octet worth trying (0 - a NUL word -, 1, 2, 0xff) followed by more data, by a valid
+    # frame, by nothing: refused after four octets - there is no such thing as padding between frames
+    good92 = bytes([1]) + gen.be(92, 3) + rng.fork("nul").bytes(88)
+    for b0 in (0, 1, 2, 0xff):
+        for L in (0, 1, 2, 3):
+            for tailname, tailb in (("none", b""), ("more", b"\0\0\0\0" * 3), ("more", good92), ("more", b"\0\0"), ("more", b"\x01")):
+                data = bytes([b0]) + gen.be(L, 3) + tailb
+                cases.append(f"SD g 1 {rs([data])}")
+                meta.append((L, tailname, len(tailb)))
+                if tailb:
+                    cases.append(f"SD g 1 {rs([data[:4], 'p', data[4:]])}")
+                    meta.append((L, tailname, len(tailb)))
     # legal lengths whose body arrives slowly: in two pieces with a pause of 1 ms ... 30 s (virtual time) after the prefix and again in
     # the middle, one octet per read, two octets per read (hundreds of reads for one frame) - how a body arrives is no reason to fail
     for L in (24, 92, 260, 1000, 4100):
@@ -584,6 +596,22 @@ def server_scenarios(rng, eng, msgs, n, tier):
             chunks = [stream] if r.chance(1, 2) else random_chunking(r, stream)
             case = f"SV b {rs(chunks)} {ws([])} {len(frames)} " + " ".join("A " + a[0][2:] for a in answers)
             out.append((case, ("ret", xb(b"".join(a[1] for a in answers))), "retransmission-origin-host", len(frames)))
+    # answers that carry Origin-Host / Origin-Realm (as real answers do), then a long silence (31 s, 61 s, an hour of virtual time), then
+    # the next request, then a silence before the peer closes: the connection loop writes answers - it does not speak on its own
+    for k in range(6 if tier == "quick" else 60):
+        r = rng.fork(f"idle{k}")
+        grp = omsgs[4 * (k % (len(omsgs) // 4)):4 * (k % (len(omsgs) // 4)) + 4]
+        ans_line = hist_line("b", ("NEW", 272, 4, 0, 0x900 + k, 0x901 + k), [("ADDAVP", 264, None, 0x40, ("L", ("id", b"server.example.com"))), ("ADDAVP", 296, None, 0x40, ("L", ("id", b"example.com"))),
+                                                                          ("ADDAVP", 268, None, 0x40, ("L", ("u32", 2001)))])
+        aenc = core.run_sharded([eng.harness, "codec"], eng.prelude, [ans_line], shards=1)[0]
+        if not (aenc.startswith("R ok") and " ENC x" in aenc):
+            raise core.MachineryError("could not build an answer with Origin-Host")
+        abytes = bytes.fromhex(aenc[aenc.rindex(" ENC ") + 6:].split()[0])
+        pause = ["t:7918", "t:ee48", "t:36ee80"][k % 3]
+        chunks = [grp[0][1], pause, grp[2][1], pause]
+        case = f"SV b {rs(chunks)} {ws([])} 2 A {ans_line[2:]} A {ans_line[2:]}"
+        exp = f"SV closed CALLS 2 [{grp[0][2]}] [{grp[2][2]}] WRITTEN {xb(abytes + abytes)}"
+        out.append((case, exp, "idle-after-identified-answer", 2))
     # every command the library knows as the first request of a pipeline (capabilities exchange, watchdog, disconnect-peer, ...):
     # whatever a command means to the application, the connection loop treats it like any other request - the two requests
     # behind it are handled and answered
